@@ -51,6 +51,14 @@ CHECK_DEADLOCK FALSE
 """)
 
 
+def _rm(path):
+    # edge files are large (GBs in the thorough tier); violation records carry their own case
+    try:
+        os.remove(path)
+    except OSError:
+        pass
+
+
 def sig_of(d):
     return {"sub": "latch", "rule": d.get("rule"), "field": d.get("field"), "kind": d.get("kind"), "by": d.get("by")}
 
@@ -101,6 +109,7 @@ def run(tier):
                     ck.cov["samples"].append({"cfg": e["cfg"], "pre": e["pre"], "act": e["act"], "kind": e["kind"],
                                               "by": e["by"], "expected": e["exp"]})
         ck.cov["exhaustive"] = res["finished"] and summ["edges"] == res["counts"]["EDGE"]
+        _rm(edges)
         try:
             os.remove(cfg)
         except OSError:
@@ -128,6 +137,7 @@ def run(tier):
                 ck.cov["samples"].append({"cfg": e["cfg"], "pre": e["pre"], "act": e["act"], "kind": e["kind"],
                                           "source": "simulation"})
     os.remove(cfg)
+    _rm(edges)
     ck.cov["traces_validated_against_impl"] = total_edges
     ck.cov["evaluations"] = total_edges
     ck.cov["distinct_nontrivial"] = len(nontrivial)
